@@ -92,6 +92,14 @@ func genPkgInput(r *Rand, w *Workload, pkg string, format string, opts GenOpts) 
 	}
 }
 
+// AddFinalPasses makes the workload a host program's: one or two built-in passes
+// appended to every language's chain, one pass object for all languages.
+func AddFinalPasses(r *Rand, w *Workload) {
+	n := 1 + r.Intn(2)
+	w.FinalPasses = Shuffled(r, FinalPassNames)[:n]
+	w.Name += " +final:" + strings.Join(w.FinalPasses, ",")
+}
+
 // AddCaseTwin adds, for one JSON Schema / OpenAPI input, a second input reading
 // the same document under a package name that differs in letter case only: the
 // same object names then exist in two packages that a case-insensitive match
